@@ -32,7 +32,13 @@ class Regp:
         self.ub = cast.load('src/byte-buffer.c')
         ck.unit(UNIT)
         self.so = sym.unit_sizeofs(UNIT, self.u)
-        self.E = self.u.enums
+        self.E = dict(self.u.enums)
+        macros = ['RP_OPT_WORD_SIZE_16', 'RP_OPT_WITH_HEADER_CRC', 'RP_OPT_WITH_PAYLOAD_CRC', 'RP_IMPLEMENTATION_VERSION',
+                  'RP_DEFAULT_BUFFER_SIZE', 'EBADMSG', 'EILSEQ', 'EFAULT', 'EINVAL', 'EPROTO', 'EBUSY', 'ENOMEM']
+        try:
+            self.E.update(zip(macros, front.probe_values(UNIT, macros)))
+        except front.FrontError as e:
+            ck.broken('regp.front', 'macros', '', str(e))
         self.P = {}
         self.eng = self.engine(inline if inline is not None else (PREDICATES | RESP_WRAPPERS))
 
